@@ -78,7 +78,7 @@ def oracle(case, observed):
                     if x != final:
                         forbidden.setdefault(x, t)
                 for o in obs:
-                    if o[0] == "L" and o[1] != "generate_next_steps" and final not in o[3]:
+                    if o[0] == "L" and o[1] != "generate_next_steps" and final.strip() and final not in o[3]:
                         out.append((f"{ver}-rewritten-text-missing-in-prompt", f"turn {t}: prompt of {o[1]} lacks {final}: {o[3]}", t))
         if reply[0] == "msg" and reply[1]:
             legit.update(str(reply[1]).split("\n"))
